@@ -132,3 +132,8 @@ func ZZGovOverlay(old, opt *GovParams) *GovParams {
 	r.minSignedBlocks = pi(old.minSignedBlocks, opt.minSignedBlocks)
 	return r
 }
+
+// ZZSetSigning sets the downtime parameters of p.
+func ZZSetSigning(p *GovParams, window, minSigned int64) {
+	p.signedBlocksWindow, p.minSignedBlocks = window, minSigned
+}
